@@ -856,9 +856,16 @@ class DcmMetaExtension(Nifti1Extension):
             per_slice = curr_class[1] == 'slices'
         if new_class in self.get_valid_classes():
             new_mult = self.get_multiplicity(new_class)
-            #Only way we get 0 for mult is if slice dim is undefined
+            #Only way we get 0 for mult is if slice dim is undefined, use the
+            #provided one (as in get_multiplicity, per slice values repeat
+            #over the time / vector dimensions)
             if new_mult == 0:
                 new_mult = self.shape[slice_dim]
+                if new_class[0] == 'vector':
+                    new_mult *= self.shape[3]
+                elif new_class[0] == 'global':
+                    for dim_size in self.shape[3:]:
+                        new_mult *= dim_size
         else:
             new_mult = 1
         mult_fact = int(new_mult // curr_mult)
